@@ -472,6 +472,41 @@ def worker(case: Dict[str, Any]) -> CaseResult:
                 for clause, detail in out[:4]:
                     violations.append(Violation(PROP, "reaches-user-as-parse-of-raw", "%s [%s]: %s: %s" % (op_name, mode, clause, detail), fl, replay_case, mech="c07:model-value:" + clause))
                 count("leaves_walked", wstats.get("leaves", 0))
+        # ---- None put into an existing input model where the schema wants a value: either the model refuses the assignment or serialize still never sees None
+        if "VfTakeInput" in methods and not uploads:
+            opnode = op_nodes["VfTakeInput"]
+            try:
+                vg = ValueGen(schema_ref, rng, custom_scalar_values=tokens)
+                tree = vg.variables(opnode, minimal=True)
+                from ..values import param_names as _pn
+                pmap_ = {"inp": next(iter(_pn(client, methods["VfTakeInput"])), "inp")}
+                kwargs = python_args(pkg, cfg, opnode, tree, schema_ref, by_alias=True, pmap=pmap_, transform=in_python)
+                model = next(iter(kwargs.values()))
+            except BaseException:  # noqa: BLE001
+                model = None
+            if model is not None and hasattr(type(model), "model_fields"):
+                for k, n in enumerate(scalars):
+                    if variant_of[n] not in ("both", "deprecated_import", "serialize_str", "ctor_parse", "shared_cls"):
+                        continue
+                    fname = next((f_ for f_, fi_ in type(model).model_fields.items() if (fi_.alias or f_) == "s%d" % k), None)
+                    if fname is None:
+                        continue
+                    count("assignment_none_attempts")
+                    try:
+                        setattr(model, fname, None)
+                        refused = False
+                    except Exception:  # noqa: BLE001
+                        refused = True
+                    if refused:
+                        count("assignment_none_refused")
+                        continue
+                    csm_mod.CALLS.clear()
+                    server.world = World(schema_ref, seed=case["seed"], mode="full", rotation=0, custom_scalar_values=tokens)
+                    call_method(client, is_async, methods["VfTakeInput"], kwargs)
+                    if any(k_ == "serialize" and a_ == "None" for k_, i_, a_ in csm_mod.CALLS):
+                        violations.append(Violation(PROP, "serialize-never-for-none", "VfTakeInput: None assigned to the non-null field s%d of an existing input model was accepted and serialize was called with None" % k,
+                                                    sorted(feats | {"input.assignment_after_construction"}), replay_case, mech="c07:serialize-none-after-assignment"))
+                    break
         # ---- the operation builder (custom_arguments.py): the same contract for arguments given to a builder method
         root_q = schema_ref.query_type
         if cfg_full.get("enable_custom_operations") and "vfTakeScalars" in root_q.fields:
@@ -486,7 +521,7 @@ def worker(case: Dict[str, Any]) -> CaseResult:
             else:
                 py_of = dict(zip(arg_names, params))
                 ser_variants = ("both", "deprecated_import", "serialize_str", "ctor_parse", "shared_cls")
-                for script, num in (("truthy", 7), ("falsy", 20), ("optional-given", 40), ("optional-none", 13)):
+                for script, num in (("truthy", 7), ("falsy", 20), ("optional-given", 40), ("optional-none", 13), ("required-none", 51)):
                     kwargs, want_values, want_args, ser_want = {}, [], [], []
                     for k, n in enumerate(scalars):
                         given = [("a%d" % k, tokens[n](num + k * 20))]
@@ -494,6 +529,10 @@ def worker(case: Dict[str, Any]) -> CaseResult:
                             given.append(("o%d" % k, tokens[n](num + 1 + k * 20)))
                         if script == "optional-none" and k == 0:
                             kwargs[py_of["o0"]] = None  # explicit None: omitted, serialize not called
+                        if script == "required-none" and k == 0:
+                            # None where the schema wants a value is the caller's mistake; serialize is still "never called for None"
+                            kwargs[py_of["a0"]] = None
+                            given = []
                         for an, tok in given:
                             kwargs[py_of[an]] = in_python(n, tok)
                             want_values.append(in_wire(n, tok))
